@@ -51,7 +51,8 @@ def reject_batch(I, st, items):
     """items: list of (needle expr, region, a, b): bytes [a, b) of region differ from needle"""
     s = st.store
     progress = True
-    pending = list(items)
+    # intervals that could not be placed yet (they arrived before the piece that connects them)
+    pending = list(items) + list(st.ghost.get('pend', ()))
     while progress and pending:
         progress = False
         rest = []
@@ -92,6 +93,7 @@ def reject_batch(I, st, items):
             if not used:
                 rest.append((n, r, a, b))
         pending = rest
+    st.ghost['pend'] = tuple(pending[-8:])
 
 
 # ----------------------------------------------------------------------------- term shapes
